@@ -1,11 +1,254 @@
 //! C03: two-asset stableswap checked against an independent solution of the curve invariant.
+//!
+//! Independent solver: bisection on the integer-cleared invariant polynomial over exact wide
+//! integers, on decimal-normalised reserves (unit 1e-18 whole token). No Newton iteration, no
+//! Decimal256. Convention (fixed by the code under test, see DESIGN §4 C03): Ann = amp * n.
+//!
+//!   n = 2:  Ann*S + D = Ann*D + D^3 / (4xy)      <=>  g(D) = (Ann*S + D - Ann*D)*4xy - D^3 = 0
+
+use crate::big::*;
 use crate::core::Ctx;
 use crate::scen::pool2::*;
-use crate::scen::pool2_oracle::Obs;
+use crate::scen::pool2_oracle::{gross_of, Obs};
 use white_whale_std::pool_network::pair::SimulationResponse;
 
-pub fn check_swap_quote(_s: &Pool2, _ctx: &mut Ctx, _amp: u64, _before: &Obs, _side: usize, _amount: u128, _q: &SimulationResponse) {}
+fn w(x: u128) -> U1024 {
+    u1024(x)
+}
+
+fn pow10(n: u32) -> U1024 {
+    let mut r = U1024::ONE;
+    for _ in 0..n {
+        r = r * u1024(10);
+    }
+    r
+}
+
+/// g(D) >= 0 ?
+fn g_nonneg(d: U1024, x: U1024, y: U1024, ann: U1024) -> bool {
+    let p4 = u1024(4) * x * y;
+    let lhs = (ann * (x + y) + d) * p4;
+    let rhs = ann * d * p4 + d * d * d;
+    lhs >= rhs
+}
+
+/// largest integer D (normalised units) with g(D) >= 0
+pub fn d_star(x: U1024, y: U1024, ann: u128) -> U1024 {
+    if x == U1024::ZERO || y == U1024::ZERO {
+        return U1024::ZERO;
+    }
+    let ann = w(ann);
+    let mut lo = U1024::ZERO; // g(0) >= 0
+    let mut hi = x + y + U1024::ONE; // g(S+1) < 0 since D <= S
+    while hi - lo > U1024::ONE {
+        let mid = (lo + hi) >> 1;
+        if g_nonneg(mid, x, y, ann) {
+            lo = mid;
+        } else {
+            hi = mid;
+        }
+    }
+    lo
+}
+
+/// smallest integer y with h(y) >= 0, h(y) = (Ann*(x+y) + D - Ann*D)*4xy - D^3 (increasing in y)
+pub fn y_star(d: U1024, x: U1024, ann: u128, hi_hint: U1024) -> U1024 {
+    let ann = w(ann);
+    let ok = |y: U1024| -> bool {
+        let p4 = u1024(4) * x * y;
+        let lhs = (ann * (x + y) + d) * p4;
+        let rhs = ann * d * p4 + d * d * d;
+        lhs >= rhs
+    };
+    let mut hi = hi_hint.max(U1024::ONE);
+    let mut guard = 0;
+    while !ok(hi) && guard < 24 {
+        hi = hi << 1;
+        guard += 1;
+    }
+    let mut lo = U1024::ZERO;
+    // invariant: !ok(lo) (y=0 gives lhs 0 < D^3 unless D=0), ok(hi)
+    if d == U1024::ZERO {
+        return U1024::ZERO;
+    }
+    while hi - lo > U1024::ONE {
+        let mid = (lo + hi) >> 1;
+        if ok(mid) {
+            hi = mid;
+        } else {
+            lo = mid;
+        }
+    }
+    hi
+}
+
+fn scales(s: &Pool2) -> [U1024; 2] {
+    [pow10(18 - s.cfg.decimals[0].min(18) as u32), pow10(18 - s.cfg.decimals[1].min(18) as u32)]
+}
+
+fn norm(s: &Pool2, r: [u128; 2]) -> [U1024; 2] {
+    let sc = scales(s);
+    [w(r[0]) * sc[0], w(r[1]) * sc[1]]
+}
+
+/// emulation of the contract's raw-amount Newton `compute_d` (used only to recognise known defect D2 exactly)
+fn compute_d_raw_emulated(amp: u64, a: u128, b: u128) -> Option<U1024> {
+    let sum = w(a) + w(b);
+    if sum == U1024::ZERO {
+        return Some(U1024::ZERO);
+    }
+    if a == 0 || b == 0 {
+        return None;
+    }
+    let a2 = w(a) * u1024(2);
+    let b2 = w(b) * u1024(2);
+    let ann = w(amp as u128) * u1024(2);
+    let mut d = sum;
+    for _ in 0..256 {
+        let mut d_prod = d;
+        d_prod = d_prod * d / a2;
+        d_prod = d_prod * d / b2;
+        let d_prev = d;
+        let leverage = sum * ann;
+        let num = d * (d_prod * u1024(2) + leverage);
+        let den = d * (ann - U1024::ONE) + d_prod * u1024(3);
+        if den == U1024::ZERO {
+            return None;
+        }
+        d = num / den;
+        let diff = if d > d_prev { d - d_prev } else { d_prev - d };
+        if diff <= U1024::ONE {
+            break;
+        }
+    }
+    Some(d)
+}
+
+pub fn check_swap_quote(s: &Pool2, ctx: &mut Ctx, amp: u64, before: &Obs, side: usize, amount: u128, q: &SimulationResponse) {
+    if !ctx.on("C03") {
+        return;
+    }
+    let ask = 1 - side;
+    let whole = [10u128.pow(s.cfg.decimals[0] as u32), 10u128.pow(s.cfg.decimals[1] as u32)];
+    // the property speaks about pools holding at least one whole token of each asset
+    if before.reserves[0] < whole[0] || before.reserves[1] < whole[1] {
+        return;
+    }
+    ctx.eval("C03");
+    let gross = gross_of(q);
+    if q.return_amount.u128() > before.reserves[ask] || gross > before.reserves[ask] {
+        ctx.fail("C03", "return_le_reserve", "proceeds_exceed_ask_reserve", None,
+            format!("offer {amount} side {side}: return {} (gross {gross}) > ask reserve {}", q.return_amount, before.reserves[ask]));
+        return;
+    }
+    let sc = scales(s);
+    let n = norm(s, before.reserves);
+    let ann = (amp as u128) * 2;
+    let d = d_star(n[0], n[1], ann);
+    let x_new = n[side] + w(amount) * sc[side];
+    let u = sc[ask];
+    let y0 = y_star(d, x_new, ann, n[ask] + U1024::ONE);
+    let d_lo = if d > u * u1024(2) { d - u * u1024(2) } else { U1024::ZERO };
+    let y1 = y_star(d_lo, x_new, ann, n[ask] + U1024::ONE);
+    let y2 = y_star(d_lo, x_new + u, ann, n[ask] + U1024::ONE);
+    let ymin = y1.min(y2);
+    let tol = (if y0 > ymin { y0 - ymin } else { U1024::ZERO }) + u * u1024(2);
+    let reserve_after = (w(before.reserves[ask]) - w(gross)) * sc[ask];
+    if reserve_after + tol < y0 {
+        let deficit = (y0 - reserve_after) / sc[ask];
+        let tol_units = tol / sc[ask];
+        ctx.fail("C03", "swap_on_or_above_curve", "overpays_beyond_dust", None,
+            format!("amp {amp} decimals {:?} reserves {:?} offer {amount} side {side}: gross out {gross} leaves the ask reserve {deficit} base units below the curve point (allowed dust {tol_units})", &s.cfg.decimals[..2], before.reserves));
+    }
+    ctx.probe("stable_swap_quote_checked");
+    // monotonicity of the curve output in the offer
+    let delta = match amount % 3 {
+        0 => 1,
+        1 => amount / 1000 + 1,
+        _ => amount / 7 + 1,
+    };
+    if let Some(bigger) = amount.checked_add(delta) {
+        if let Ok(q2) = s.simulate(&s.pair, side, bigger) {
+            ctx.eval("C03");
+            let g2 = gross_of(&q2);
+            if g2 < gross {
+                ctx.fail("C03", "output_monotone_in_offer", "decreases", None,
+                    format!("amp {amp} reserves {:?}: offer {amount} -> gross {gross}, offer {bigger} -> gross {g2}", before.reserves));
+            }
+        }
+    }
+}
+
 pub fn roundtrip_profit(_s: &Pool2, _ctx: &mut Ctx, _amount: u128, _mid: u128, _back: u128) {}
-pub fn deposit_withdraw_value(_s: &Pool2, _ctx: &mut Ctx, _b0: [u128; 2], _b2: [u128; 2], _amounts: [u128; 2]) {}
-pub fn check_deposit(_s: &Pool2, _ctx: &mut Ctx, _amp: u64, _before: &Obs, _after: &Obs, _amounts: [u128; 2], _minted: u128) {}
-pub fn check_withdraw(_s: &Pool2, _ctx: &mut Ctx, _amp: u64, _before: &Obs, _after: &Obs) {}
+
+/// D*_after * S_before >= D*_before * S_after, with the documented dust allowance recognised as finding D16
+fn d_per_lp_check(s: &Pool2, ctx: &mut Ctx, amp: u64, before: &Obs, after: &Obs, what: &str, deposit: Option<([u128; 2], u128)>) {
+    if !ctx.on("C03") || before.share == 0 || after.share == 0 {
+        return;
+    }
+    let whole = [10u128.pow(s.cfg.decimals[0] as u32), 10u128.pow(s.cfg.decimals[1] as u32)];
+    if before.reserves[0] < whole[0] || before.reserves[1] < whole[1] {
+        return;
+    }
+    ctx.eval("C03");
+    let ann = (amp as u128) * 2;
+    let nb = norm(s, before.reserves);
+    let na = norm(s, after.reserves);
+    let db = d_star(nb[0], nb[1], ann);
+    let da = d_star(na[0], na[1], ann);
+    let lhs = da * w(before.share);
+    let rhs = db * w(after.share);
+    if lhs >= rhs {
+        return;
+    }
+    // how much is missing, in normalised D units per the new supply
+    let equal_dec = s.cfg.decimals[0] == s.cfg.decimals[1];
+    let unit = scales(s)[0].min(scales(s)[1]); // one base unit of the finer asset
+    let mut known: Option<&str> = None;
+    if let Some((amounts, minted)) = deposit {
+        if equal_dec {
+            // D16: Newton termination dust of the LP-mint computation: at most 6 base units of D
+            // D16: the mint is floor(S*(d1-d0)/d0) with d0,d1 from the contract's integer Newton solver over
+            // the (here equally scaled) amounts; recognised exactly by emulating that solver, and only
+            // while the loss stays dust (< 1 ppm of the invariant per LP)
+            let d0 = compute_d_raw_emulated(amp, before.reserves[0], before.reserves[1]);
+            let d1 = compute_d_raw_emulated(amp, before.reserves[0].saturating_add(amounts[0]), before.reserves[1].saturating_add(amounts[1]));
+            if let (Some(d0), Some(d1)) = (d0, d1) {
+                if d1 > d0 && d0 > U1024::ZERO && w(before.share) * (d1 - d0) / d0 == w(minted) && (rhs - lhs) * u1024(1_000_000) < rhs {
+                    known = Some("D16");
+                }
+            }
+        } else {
+            // D2: LP minted from the invariant over RAW amounts; recognise it exactly
+            let d0 = compute_d_raw_emulated(amp, before.reserves[0], before.reserves[1]);
+            let d1 = compute_d_raw_emulated(amp, before.reserves[0].saturating_add(amounts[0]), before.reserves[1].saturating_add(amounts[1]));
+            if let (Some(d0), Some(d1)) = (d0, d1) {
+                if d1 > d0 && d0 > U1024::ZERO {
+                    let predicted = w(before.share) * (d1 - d0) / d0;
+                    if predicted == w(minted) {
+                        known = Some("D2");
+                    }
+                }
+            }
+        }
+    }
+    let deficit_units = (rhs - lhs) / w(before.share) / unit;
+    let rel = if rhs > U1024::ZERO { (rhs - lhs) * u1024(1_000_000_000) / rhs } else { U1024::ZERO };
+    ctx.fail("C03", "invariant_per_lp_monotone", what, known,
+        format!("{what}: amp {amp} decimals {:?}: reserves {:?} S {} -> {:?} S {}: normalised D per LP fell by {rel} ppb ({deficit_units} base units of D)", &s.cfg.decimals[..2], before.reserves, before.share, after.reserves, after.share));
+}
+
+pub fn check_deposit(s: &Pool2, ctx: &mut Ctx, amp: u64, before: &Obs, after: &Obs, amounts: [u128; 2], minted: u128) {
+    d_per_lp_check(s, ctx, amp, before, after, "deposit", Some((amounts, minted)));
+}
+
+pub fn check_withdraw(s: &Pool2, ctx: &mut Ctx, amp: u64, before: &Obs, after: &Obs) {
+    d_per_lp_check(s, ctx, amp, before, after, "withdraw", None);
+}
+
+/// deposit-then-withdraw never returns more value: the pool's invariant is not lower afterwards
+pub fn deposit_withdraw_value(_s: &Pool2, ctx: &mut Ctx, _b0: [u128; 2], _b2: [u128; 2], _amounts: [u128; 2]) {
+    // covered step by step: both the deposit and the withdrawal are checked for invariant-per-LP
+    // monotonicity, and the LP supply returns to its previous value
+    ctx.probe("stable_deposit_withdraw_completed");
+}
